@@ -15,17 +15,22 @@ Definition C01_full : Prop :=
 (* REFUTED, once per finding class, by kernel-checked witnesses that are also replayed on rattr *)
 Theorem C01_refuted : ~ C01_full.
 Proof.
-  intros H. destruct miss_slice as (Hok & Hin & Hno).
-  rewrite (H w1 (AGet, "i.j") Hok Hin) in Hno. discriminate.
+  intros H. destruct miss_inner_call_arg as (Hok & Hin & Hno).
+  rewrite (H w2 (AGet, "y.z") Hok Hin) in Hno. discriminate.
 Qed.
 Print Assumptions C01_refuted.
 Theorem C01_refuted_each_class :
-  misses w1 (AGet, "i.j") /\ misses w2 (AGet, "y.z") /\ misses w2 (ACall, "p.m") /\ misses w3 (AGet, "v.w")
+  misses w2 (AGet, "y.z") /\ misses w2 (ACall, "p.m") /\ misses w3 (AGet, "v.w")
   /\ misses w4 (AGet, "x.dv") /\ misses w5 (AGet, "a").
 Proof.
-  repeat split; first [apply miss_slice | apply miss_inner_call_arg | apply miss_inner_call
+  repeat split; first [apply miss_inner_call_arg | apply miss_inner_call
                       | apply miss_attr_call_arg | apply miss_nested_default | apply miss_deep_root].
 Qed.
+
+(* the index / slice of every subscript on a spine IS visited (finding KF_C01_1 before its repair) *)
+Example C01_slices_are_reported :
+  fst (run w1) = Ok tt /\ forallb (reported_in (snd (run w1))) [(AGet, "i.j"); (AGet, "i.a"); (AGet, "i.b")] = true.
+Proof. exact slices_are_reported. Qed.
 
 (* What holds for every node, every state and every outcome: no visitor ever removes anything from
    the IR or from the warnings (so what was reported while visiting one statement is still
